@@ -206,4 +206,110 @@ theorem split_tiling (hM : MergeExact) (b : Net) (hb : b.WF) (s g : List Net) (h
       · exact Or.inl (hsc h)
       · exact Or.inr (Or.inr h)
 
+/-- what `subnet` can answer, by cases on the target prefix and the count -/
+theorem subnet_cases (n : Net) (hn : n.WF) (q : Int) (count : Option Int) :
+    (q < n.plen ∧ Subnet.subnet n q count = .ok []) ∨
+    ((n.plen : Int) ≤ q ∧ q ≤ (width n.ver : Nat) ∧ Subnet.subnet n q count = .error .value) ∨
+    ((n.plen : Int) ≤ q ∧ q ≤ (width n.ver : Nat) ∧ ∃ c, 1 ≤ c ∧ c ≤ 2 ^ (q.toNat - n.plen) ∧
+        Subnet.subnet n q count = .ok ((List.range c).map (C11.sub n q.toNat))) ∨
+    ((width n.ver : Nat) < q ∧ ∃ e, Subnet.subnet n q count = .error e) := by
+  have hp := hn.2.2
+  by_cases h1 : q < n.plen
+  · exact Or.inl ⟨h1, C11.subnet_shorter n hn q count h1⟩
+  · by_cases h2 : q ≤ (width n.ver : Nat)
+    · have hqe : q = ((q.toNat : Nat) : Int) := by omega
+      have hpq : n.plen ≤ q.toNat := by omega
+      have hqw : q.toNat ≤ width n.ver := by omega
+      obtain ⟨s1, s2, s3⟩ := C11.subnet_spec n hn q.toNat hpq hqw
+      rw [← hqe] at s1 s2 s3
+      have hM := pw (q.toNat - n.plen)
+      cases count with
+      | none => exact Or.inr (Or.inr (Or.inl ⟨by omega, h2, _, hM, Nat.le_refl _, s1⟩))
+      | some c =>
+        by_cases hc : 1 ≤ c ∧ c ≤ ((2 ^ (q.toNat - n.plen) : Nat) : Int)
+        · refine Or.inr (Or.inr (Or.inl ⟨by omega, h2, c.toNat, by omega, ?_, s2 c hc.1 hc.2⟩))
+          have : (c.toNat : Int) ≤ ((2 ^ (q.toNat - n.plen) : Nat) : Int) := by omega
+          exact_mod_cast this
+        · exact Or.inr (Or.inl ⟨by omega, h2, s3 c hc⟩)
+    · refine Or.inr (Or.inr (Or.inr ⟨by omega, ?_⟩))
+      unfold Subnet.subnet
+      rw [Subnet.subnetCount_eq n hp, if_neg h1]
+      by_cases hc : 1 ≤ count.getD ((Subnet.maxSubnets (width n.ver) n.plen q.toNat : Nat) : Int) ∧
+          count.getD ((Subnet.maxSubnets (width n.ver) n.plen q.toNat : Nat) : Int) ≤
+            ((Subnet.maxSubnets (width n.ver) n.plen q.toNat : Nat) : Int)
+      · rw [if_pos hc]
+        show ∃ e, Subnet.subnetLoop n q.toNat _ 0 [] = .error e
+        unfold Subnet.subnetLoop
+        have hpos : 0 < (count.getD ((Subnet.maxSubnets (width n.ver) n.plen q.toNat : Nat) : Int)).toNat := by omega
+        rw [dif_pos hpos]
+        have : Subnet.subnetItem n q.toNat 0 = .error .addrFormat := by
+          unfold Subnet.subnetItem
+          rw [if_pos (by omega)]
+        rw [this]
+        exact ⟨_, rfl⟩
+      · rw [if_neg hc]
+        exact ⟨_, rfl⟩
+
+theorem map_range_ne_nil {α : Type} (f : Nat → α) (c : Nat) (hc : 1 ≤ c) :
+    ((List.range c).map f).isEmpty = false := by
+  cases c with
+  | zero => omega
+  | succ k => simp [List.range_succ]
+
+/-- **extract_subnet**, by induction over the free blocks it looks at -/
+theorem extractLoop_spec (hM : MergeExact) (b : Net) (hb : b.WF) (s g : List Net) (ht : Tiling b s g)
+    (pfx : Int) (count : Option Int) :
+    ∀ (l : List Net), (∀ c ∈ l, c ∈ s) →
+      (∀ subs s', extractLoop s pfx count l = .ok (subs, s') →
+          Tiling b s' (subs ++ g) ∧
+          (∀ x ∈ subs, (x.plen : Int) = pfx ∧ x.val % 2 ^ (width b.ver - x.plen) = 0) ∧
+          (subs = [] → s' = s)) ∧
+      (∀ e, extractLoop s pfx count l = .error e → pfx ≤ (width b.ver : Nat) → e = .value) := by
+  intro l
+  induction l with
+  | nil =>
+    intro _
+    constructor
+    · intro subs s' h
+      simp only [extractLoop, Except.ok.injEq, Prod.mk.injEq] at h
+      obtain ⟨rfl, rfl⟩ := h
+      exact ⟨by simpa using ht, by simp, fun _ => rfl⟩
+    · intro e h; simp [extractLoop] at h
+  | cons cidr rest ih =>
+    intro hl
+    have hcs : cidr ∈ s := hl cidr (by simp)
+    have hcok : NOk b.ver cidr := ht.ok cidr (List.mem_append_left g hcs)
+    have hcv : cidr.ver = b.ver := hcok.1
+    have hcwf : cidr.WF := nok_wf hb.1 hcok
+    have ih' := ih (fun c hc => hl c (List.mem_cons_of_mem _ hc))
+    rcases subnet_cases cidr hcwf pfx count with ⟨_, hsub⟩ | ⟨_, _, hsub⟩ | ⟨hpq, hqw, c, hc1, hc2, hsub⟩ | ⟨hgt, e', hsub⟩
+    · simp only [extractLoop, hsub, List.isEmpty_nil, ite_true]
+      exact ih'
+    · simp only [extractLoop, hsub]
+      constructor
+      · intro subs s' h; simp at h
+      · intro e h _; simpa using h.symm
+    · have hne := map_range_ne_nil (C11.sub cidr pfx.toNat) c hc1
+      have hany : s.any (keyEq cidr) = true := List.any_eq_true.2 ⟨cidr, hcs, keyEq_refl cidr⟩
+      simp only [extractLoop, hsub, hne, removeSubnet, hany, ite_true]
+      constructor
+      · intro subs s' h
+        simp only [Bool.false_eq_true, ite_false, Except.ok.injEq, Prod.mk.injEq] at h
+        obtain ⟨rfl, rfl⟩ := h
+        have hpq' : cidr.plen ≤ pfx.toNat := by omega
+        have hqw' : pfx.toNat ≤ width b.ver := by rw [← hcv]; omega
+        refine ⟨split_tiling hM b hb s g ht cidr hcs pfx.toNat hpq' hqw' c hc2, ?_, ?_⟩
+        · intro x hx
+          have hf := (subs_facts cidr hcwf pfx.toNat hpq' (by rw [hcv]; exact hqw') c hc2).1 x hx
+          obtain ⟨_, hpl, hal, _⟩ := hf
+          rw [hcv] at hal
+          rw [hpl]
+          exact ⟨by omega, hal⟩
+        · intro h; rw [h] at hne; simp at hne
+      · intro e h; simp at h
+    · simp only [extractLoop, hsub]
+      constructor
+      · intro subs s' h; simp at h
+      · intro e _ hle; rw [hcv] at hgt; omega
+
 end NV.C20L
